@@ -256,6 +256,10 @@ class Verifier:
             path.assume(I.truth(I.ev(r, cf)))
         for text, e in contract.assumes:
             path.assume(I.truth(I.ev(e, cf)))
+        # known findings (committed in known_findings.json): the obligations are proved on the complement of the
+        # recorded region, so any *other* failure of the same obligation is still a violation
+        for kid, region in contract.known:
+            path.assume(z3.Not(I.truth(I.ev(region, cf))))
         if not path.feasible(z3.BoolVal(True)):
             return 'infeasible-entry'
         old = I.snapshot_frame(cf)
